@@ -72,7 +72,8 @@ func (s *set[ElementType]) DeleteAll(other ReadableSet[ElementType]) (removedEle
 
 	removedElements = NewSet[ElementType]()
 	_ = other.ForEach(func(element ElementType) (err error) {
-		if s.Delete(element) {
+		// the applyMutex is already read-locked: taking it again through s.Delete deadlocks with a pending Apply
+		if s.OrderedMap.Delete(element) {
 			removedElements.Add(element)
 		}
 
